@@ -164,8 +164,15 @@ class RunTaskExecutable(Operation):
     def finish_execution(self, handle: OperationExecutionHandle, ctx: Context) -> None:
         assert handle.stdout is not None
         assert handle.stderr is not None
-        handle.stdout.finish()
-        handle.stderr.finish()
+        try:
+            handle.stdout.finish()
+            handle.stderr.finish()
+        except OSError as ex:
+            # The task's output could not be recorded (e.g., because the task
+            # removed its own output directory).
+            raise TaskFailed(task_identifier=self._identifier).add_extra_context(
+                "The task's output could not be recorded: {}".format(ex)
+            )
 
         assert handle.returncode is not None
         if handle.process is not None:
